@@ -127,6 +127,10 @@ def schedules(fam):
     if fam == "cache":
         out.append(S(fam, "resub", [opn("c1"), sub("c1", "a"), Q, unsub("c1", "a"), Q, {"op": "time", "ms": 3000},
                                     sub("c1", "a"), Q, unsub("c1", "a"), Q, {"op": "time", "ms": 6000}, Q, sub("c1", "a"), Q]))
+        # a resource id too long for the event subscription: the failed subscribe must not keep the entry in use
+        longrid = "a." + "x" * 4100
+        out.append(S(fam, "toolong", [opn("c1"), sub("c1", longrid), Q, sub("c1", longrid), Q, sub("c1", "a"), Q,
+                                      {"op": "time", "ms": 6000}, Q]))
     if fam == "query":
         # two aliasing queries both in flight
         out.append(S(fam, "alias2", [opn("c1"), sub("c1", "q?a=1"), conn("c1"), cache("q"), sub("c1", "q?b=1"), conn("c1"), cache("q"),
